@@ -19,12 +19,14 @@ LEVEL_TEXT = (
     "StringValue with the three escape forms and the surrogate-pair rule, BlockString with BlockStringValue() "
     "(dedent_block_string_lines = the specification's algorithm; the maxsize-vs-null commonIndent difference is "
     "unobservable); every gap consists of Ignored items only (the returned tokens form a derivation of the grammar's "
-    "token-sequence relation, which the executable spec tokenizer decides in both directions); dropping/inserting a run "
-    "of Ignored items in front of a suffix changes no kind and no value; strip_ignored_characters rejects exactly what "
+    "token-sequence relation, which the executable spec tokenizer decides in both directions); gap replacement with "
+    "prefix stability: the run of Ignored items after any token (or in front of the text) may be replaced by any other "
+    "run of Ignored items -- inserted, removed where the next code point cannot extend the token, or rewritten -- and "
+    "the kinds and values of all tokens before and after it are unchanged (ignored_invariance, ignored_insertion, "
+    "ignored_removal; per-class locality of the grammar's recognisers); strip_ignored_characters rejects exactly what "
     "the lexer rejects and never crashes; the advance_lexer counter accepts exactly the streams with at most n tokens "
     "and ends at the number of significant tokens. Not proved (kept as full-statement defs, covered by correspondence "
-    "and oracles only): stability of the tokens before an insertion point (ignored_invariance_full), strip_tokens, "
-    "strip_idem. "
+    "and oracles only): strip_tokens, strip_idem. "
     "The models are tied to the code by an exhaustive three-way comparison implementation / model / specification "
     "tokenizer on all strings of length <= 4 (quick) / <= 5 (thorough) over the 16-symbol alphabet, a second "
     "exhaustive pass over a 32-symbol alphabet (<= 3 / <= 4), generated and mutated documents x Ignored classes x "
